@@ -14,6 +14,7 @@ import (
 	"io"
 	"os"
 	"os/exec"
+	"regexp"
 	"runtime"
 	"runtime/debug"
 	"strconv"
@@ -31,12 +32,12 @@ import (
 )
 
 const (
-	childEnv    = "C15_CHILD"
-	childMarker = "C15-CHILD-RESULT "
-	childASKB   = 2000000  // address-space limit of a child, KiB
-	allocBound  = 64 << 20 // what a decoder of a 50-byte stream may never allocate
-	headerBound = 4096     // what header decoding may allocate
-	tailBytes   = 32       // payload bytes actually present after the header
+	childEnv      = "C15_CHILD"
+	childMarker   = "C15-CHILD-RESULT "
+	childHeadroom = 768 << 20 // address space a child may add to what it has mapped at start
+	allocBound    = 64 << 20  // what a decoder of a 50-byte stream may never allocate
+	headerBound   = 4096      // what header decoding may allocate
+	tailBytes     = 32        // payload bytes actually present after the header
 )
 
 var lengthTable = []int64{1<<31 - 1, 1 << 31, 1 << 32, 1 << 40, 1 << 47, 1 << 62, 1<<63 - 1}
@@ -168,6 +169,23 @@ func (c xcase) call(src *tx.Src) (got int, err error) {
 	return got, err
 }
 
+// vmSize is the size of the address space of this process (0 if unknown).
+func vmSize() uint64 {
+	b, err := os.ReadFile("/proc/self/statm")
+	if err != nil {
+		return 2 << 30
+	}
+	f := strings.Fields(string(b))
+	if len(f) == 0 {
+		return 2 << 30
+	}
+	pages, err := strconv.ParseUint(f[0], 10, 64)
+	if err != nil {
+		return 2 << 30
+	}
+	return pages * uint64(os.Getpagesize())
+}
+
 // TestExtremeChild is the child side. It does nothing unless C15_CHILD names
 // the cases to run.
 func TestExtremeChild(t *testing.T) {
@@ -175,9 +193,13 @@ func TestExtremeChild(t *testing.T) {
 	if spec == "" {
 		t.Skip("child process only")
 	}
+	// Address-space limit: what the process has mapped now plus childHeadroom.
+	// Every length of the table is far above the headroom, so an allocation
+	// by announced length cannot succeed; a fixed limit would sit too close
+	// to the runtime's own reservations (thread stacks then fail to map).
 	var lim syscall.Rlimit
 	if err := syscall.Getrlimit(syscall.RLIMIT_AS, &lim); err == nil {
-		want := uint64(childASKB) * 1024
+		want := vmSize() + childHeadroom
 		if lim.Max < want {
 			want = lim.Max
 		}
@@ -185,6 +207,16 @@ func TestExtremeChild(t *testing.T) {
 		_ = syscall.Setrlimit(syscall.RLIMIT_AS, &lim)
 	}
 	debug.SetGCPercent(-1)
+	if os.Getenv("C15_DEBUG") != "" {
+		defer func() {
+			b, _ := os.ReadFile("/proc/self/status")
+			for _, l := range strings.Split(string(b), "\n") {
+				if strings.HasPrefix(l, "Vm") || strings.HasPrefix(l, "Threads") {
+					fmt.Println("C15-DEBUG", l)
+				}
+			}
+		}()
+	}
 	for _, s := range strings.Split(spec, ",") {
 		c, err := parseCase(s)
 		if err != nil {
@@ -209,6 +241,31 @@ func TestExtremeChild(t *testing.T) {
 				continue
 			}
 		}
+		// Header decoding is measured several times and the smallest delta
+		// kept: TotalAlloc is process-wide and the runtime's own goroutines
+		// allocate now and then.
+		reps := 1
+		if strings.HasPrefix(c.Entry, "ReadHeader") || strings.HasPrefix(c.Entry, "NextFrame") {
+			reps = 7
+		}
+		for rep := 0; rep < reps; rep++ {
+			if rep > 0 {
+				src = tx.NewSrc(c.stream(), nil)
+			}
+			one := measure(c, src)
+			if rep == 0 || one.Alloc < res.Alloc {
+				one.Case = res.Case
+				res = one
+			}
+		}
+		b, _ := json.Marshal(res)
+		fmt.Fprintf(os.Stdout, "%s%s\n", childMarker, b)
+	}
+}
+
+// measure runs one call with the memory statistics read right around it.
+func measure(c xcase, src *tx.Src) (res xresult) {
+	{
 		runtime.GC()
 		var m0, m1 runtime.MemStats
 		runtime.ReadMemStats(&m0)
@@ -230,14 +287,39 @@ func TestExtremeChild(t *testing.T) {
 			res.Sys = m1.Sys - m0.Sys
 		}
 		res.Pos, res.Reads = src.Pos, src.Reads
-		b, _ := json.Marshal(res)
-		fmt.Fprintf(os.Stdout, "%s%s\n", childMarker, b)
 	}
+	return res
 }
 
 // runChild executes the cases in one child process. A case without a result
 // made the child die; tail is the end of the child's output.
 func runChild(cases []xcase) (results map[string]xresult, tail string, err error) {
+	for attempt := 0; ; attempt++ {
+		results, tail, err = runChildOnce(cases)
+		if err == nil && len(results) < len(cases) && !attributable(tail) && attempt < 3 {
+			continue // died for a reason that has nothing to do with the input (thread / process limits under load): again
+		}
+		if err == nil && len(results) < len(cases) && !attributable(tail) {
+			err = fmt.Errorf("child died %d times without a reason attributable to its input", attempt+1)
+		}
+		return results, tail, err
+	}
+}
+
+var bigBlock = regexp.MustCompile(`cannot allocate (\d+)-byte block`)
+
+// attributable says whether the text a dead child left behind blames the
+// input: the runtime could not allocate a block far larger than the stream,
+// a Go panic, or a stack overflow.
+func attributable(tail string) bool {
+	if m := bigBlock.FindStringSubmatch(tail); m != nil {
+		n, err := strconv.ParseUint(m[1], 10, 64)
+		return err != nil || n >= allocBound
+	}
+	return strings.Contains(tail, "panic:") || strings.Contains(tail, "stack overflow") || strings.Contains(tail, "goroutine stack exceeds")
+}
+
+func runChildOnce(cases []xcase) (results map[string]xresult, tail string, err error) {
 	keys := make([]string, len(cases))
 	for i, c := range cases {
 		keys[i] = c.key()
@@ -249,7 +331,7 @@ func runChild(cases []xcase) (results map[string]xresult, tail string, err error
 		}
 		cmd.Env = append(cmd.Env, kv)
 	}
-	cmd.Env = append(cmd.Env, childEnv+"="+strings.Join(keys, ","))
+	cmd.Env = append(cmd.Env, childEnv+"="+strings.Join(keys, ","), "GOMAXPROCS=2")
 	out, runErr := cmd.CombinedOutput()
 	results = map[string]xresult{}
 	for _, l := range strings.Split(string(out), "\n") {
